@@ -715,8 +715,175 @@ fn run_pr(c: &Case) -> Obs {
     }
 }
 
+// ---- lz: the lazy record type on one given line (regression cases)
+//   the lazy sam::Record, converted with RecordBuf::try_from_alignment_record, must equal what the
+//   eager reader parses from the same line, and both must write back to the same text
+fn run_lz(c: &Case) -> Obs {
+    let refs = dec_refs(&c.args[0]);
+    let line = c.b(1);
+    let header = header_of_refs(&refs);
+    let eager = guarded(|| {
+        let mut rd = sam::io::Reader::new(&line[..]);
+        let mut rec = RecordBuf::default();
+        rd.read_record_buf(&header, &mut rec).map(|n| (n, rec))
+    });
+    let eager = match eager {
+        Outcome::Done(Ok((n, r))) if n > 0 => r,
+        Outcome::Done(_) => return Obs { obs: "-".into(), verdict: "skip".into(), nontrivial: false },
+        Outcome::Panicked(m) => return Obs::fail("-", "panic-sam-read-record", m),
+    };
+    let espec = from_record_buf(&eager);
+    let cls = if empty_array_not_last(&espec) { "sam-lazy-empty-array-not-last" } else { "sam-lazy-differs-from-eager" };
+    let lazy = guarded(|| {
+        let mut rd = sam::io::Reader::new(&line[..]);
+        let mut rec = sam::Record::default();
+        rd.read_record(&mut rec).map(|_| rec)
+    });
+    let lazy = match lazy {
+        Outcome::Done(Ok(r)) => r,
+        Outcome::Done(Err(e)) => return Obs::fail("-", cls, format!("read_record: {e}")),
+        Outcome::Panicked(m) => return Obs::fail("-", "panic-sam-read-lazy", m),
+    };
+    match guarded(std::panic::AssertUnwindSafe(|| RecordBuf::try_from_alignment_record(&header, &lazy))) {
+        Outcome::Done(Ok(conv)) => {
+            if let Some(f) = first_diff(&canon_sam(&espec), &canon_sam(&from_record_buf(&conv))) {
+                return Obs::fail("-", &format!("sam-lazy-differs-from-eager-{f}"), dump_spec(&from_record_buf(&conv)));
+            }
+        }
+        Outcome::Done(Err(e)) => return Obs::fail("-", cls, format!("try_from_alignment_record: {e}")),
+        Outcome::Panicked(m) => return Obs::fail("-", "panic-sam-lazy-convert", m),
+    }
+    let te = guarded(std::panic::AssertUnwindSafe(|| sam_write_record(&header, &eager)));
+    let tl = guarded(std::panic::AssertUnwindSafe(|| sam_write_record(&header, &lazy)));
+    match (te, tl) {
+        (Outcome::Done(Ok(a)), Outcome::Done(Ok(b))) => {
+            if a != b {
+                return Obs::fail("-", "sam-lazy-fixed-point", diff_text(&a, &b));
+            }
+        }
+        (Outcome::Done(Ok(_)), Outcome::Done(Err(e))) => return Obs::fail("-", cls, format!("write lazy: {e}")),
+        (Outcome::Panicked(m), _) | (_, Outcome::Panicked(m)) => return Obs::fail("-", "panic-sam-write-record", m),
+        _ => {}
+    }
+    Obs::ok("-", true)
+}
+
+// ---- wh / ph: header text, modelled (NV.Sam.Header)
+
+fn enc_others<S>(of: &indexmap::IndexMap<Other<S>, BString>) -> String
+where
+    S: map::tag::Standard,
+{
+    let mut s = String::new();
+    for (t, v) in of {
+        let b: &[u8; 2] = t.as_ref();
+        s.push_str(&format!(";{}={}", hex(b), hex(v.as_ref())));
+    }
+    s
+}
+
+/// five arguments: HD SQ RG PG CO
+fn enc_header(h: &sam::Header) -> Vec<String> {
+    let hd = match h.header() {
+        None => "-".to_string(),
+        Some(m) => format!("{}.{}{}", m.version().major(), m.version().minor(), enc_others(m.other_fields())),
+    };
+    let j = |v: Vec<String>, sep: &str| if v.is_empty() { "~".to_string() } else { v.join(sep) };
+    let sq = j(
+        h.reference_sequences()
+            .iter()
+            .map(|(n, m)| format!("{}:{}{}", hex(n.as_ref()), usize::from(m.length()), enc_others(m.other_fields())))
+            .collect(),
+        "|",
+    );
+    let rg = j(h.read_groups().iter().map(|(n, m)| format!("{}{}", hex(n.as_ref()), enc_others(m.other_fields()))).collect(), "|");
+    let pg = j(h.programs().as_ref().iter().map(|(n, m)| format!("{}{}", hex(n.as_ref()), enc_others(m.other_fields()))).collect(), "|");
+    let co = j(h.comments().iter().map(|c| hex(c.as_ref())).collect(), ",");
+    vec![hd, sq, rg, pg, co]
+}
+
+fn dec_others<S>(parts: &[&str], of: &mut indexmap::IndexMap<Other<S>, BString>)
+where
+    S: map::tag::Standard,
+{
+    for p in parts {
+        let (t, v) = p.split_once('=').unwrap();
+        let t = unhex(t);
+        if let Ok(o) = Other::<S>::try_from([t[0], t[1]]) {
+            of.insert(o, BString::from(unhex(v)));
+        }
+    }
+}
+
+fn dec_header(a: &[String]) -> sam::Header {
+    let mut h = sam::Header::default();
+    if a[0] != "-" {
+        let parts: Vec<&str> = a[0].split(';').collect();
+        let (ma, mi) = parts[0].split_once('.').unwrap();
+        let mut m = Map::<map::Header>::new(Version::new(ma.parse().unwrap(), mi.parse().unwrap()));
+        dec_others(&parts[1..], m.other_fields_mut());
+        *h.header_mut() = Some(m);
+    }
+    if a[1] != "~" {
+        for it in a[1].split('|') {
+            let parts: Vec<&str> = it.split(';').collect();
+            let (n, l) = parts[0].split_once(':').unwrap();
+            let mut m = Map::<ReferenceSequence>::new(NonZero::new(l.parse::<usize>().unwrap()).unwrap());
+            dec_others(&parts[1..], m.other_fields_mut());
+            h.reference_sequences_mut().insert(BString::from(unhex(n)), m);
+        }
+    }
+    if a[2] != "~" {
+        for it in a[2].split('|') {
+            let parts: Vec<&str> = it.split(';').collect();
+            let mut m = Map::<ReadGroup>::default();
+            dec_others(&parts[1..], m.other_fields_mut());
+            h.read_groups_mut().insert(BString::from(unhex(parts[0])), m);
+        }
+    }
+    if a[3] != "~" {
+        for it in a[3].split('|') {
+            let parts: Vec<&str> = it.split(';').collect();
+            let mut m = Map::<Program>::default();
+            dec_others(&parts[1..], m.other_fields_mut());
+            h.programs_mut().as_mut().insert(BString::from(unhex(parts[0])), m);
+        }
+    }
+    if a[4] != "~" {
+        for c in a[4].split(',') {
+            h.add_comment(BString::from(unhex(c)));
+        }
+    }
+    h
+}
+
+fn run_wh(c: &Case) -> Obs {
+    let h = dec_header(&c.args);
+    match guarded(|| sam_write_header(&h)) {
+        Outcome::Done(Ok(t)) => Obs::ok(hex(&t), true),
+        Outcome::Done(Err(_)) => Obs::ok("Err", false),
+        Outcome::Panicked(m) => Obs::fail("Panic", "panic-sam-write-header", m),
+    }
+}
+
+fn run_ph(c: &Case) -> Obs {
+    let text = c.b(0);
+    let r = guarded(|| {
+        let mut rd = sam::io::Reader::new(&text[..]);
+        rd.read_header()
+    });
+    match r {
+        Outcome::Done(Ok(h)) => Obs::ok(enc_header(&h).join(" "), true),
+        Outcome::Done(Err(_)) => Obs::ok("Err", false),
+        Outcome::Panicked(m) => Obs::fail("Panic", "panic-sam-read-header", m),
+    }
+}
+
 fn run(c: &Case) -> Obs {
     match c.kind.as_str() {
+        "wh" => run_wh(c),
+        "ph" => run_ph(c),
+        "lz" => run_lz(c),
         "rt" => run_rt(c),
         "hdr" => run_hdr(c),
         "fsw" => run_fsw(c),
